@@ -16,6 +16,35 @@ def start_ok(r, text):
     return sl <= len(lines) - 1 and sc <= len(lines[sl])
 
 
+def big_texts(rng, per_size):
+    """documents of 4 KiB, 16 KiB, 64 KiB (one byte less, exactly, one byte more) and beyond: valid ones, and ones whose only
+    defect is one character the lexer rejects, one missing token, or garbage at the very end"""
+    stmts = ["send [USD 1] (source = @a destination = @b)\n", "set_tx_meta(\"k\", 42)\n",
+             "send [EUR/2 *] (\n  source = { @a @b }\n  destination = { 1/2 to @x remaining kept }\n)\n", "// a comment line\n",
+             "save [USD 10] from @a\n", "/* block\n   comment */\n"]
+    out = []
+    for size in (4096, 16384, 65536):
+        for delta in [-1, 0, 1][:per_size] + ([4000] if per_size > 3 else []):
+            target = size + delta
+            parts, n = [], 0
+            while n < target - 120:
+                t = rng.choice(stmts)
+                parts.append(t)
+                n += len(t.encode())
+            pad = target - n - 3
+            parts.append("//" + "x" * max(0, pad) + "\n")
+            valid = "".join(parts)
+            out.append(valid)
+            k = rng.randrange(len(parts) - 1)
+            bad_char = rng.choice([";", "#", "!", "\u00e9", "?"])
+            out.append("".join(parts[:k]) + bad_char + "".join(parts[k:]))                       # an illegal character only
+            out.append("".join(parts[:k]) + bad_char + "\n" + "".join(parts[k:]))
+            j = max(i for i, t in enumerate(parts) if t.startswith("send [USD"))
+            out.append("".join(parts[:j]) + parts[j].replace(")", "", 1) + "".join(parts[j + 1:]))   # a missing token
+            out.append(valid + rng.choice(["}", "send", "[", "\"open", "$"]))                     # garbage at the very end
+    return out
+
+
 def run(chk):
     broken = chk.obligations(REGISTRY["C14"])
     runner.build_harness()
@@ -53,6 +82,7 @@ def run(chk):
     for w in lookalikes:
         texts += [w, " " + w + "\n", w * 3, "\n\t" + w + " \r\n", w + "send [USD 1] (source = @a destination = @b)", "send [USD 1] (source = @a destination = @b)" + w]
     texts += ["".join(rng.choice(lookalikes + [" ", "\n", "\t"]) for _ in range(rng.randrange(1, 6))) for _ in range(40)]
+    texts += big_texts(rng, chk.size(2, 6))
     texts = list(dict.fromkeys(texts))
     gos = runner.run_go([{"id": i, "op": "parse", "script": t} for i, t in enumerate(texts)])
     fails = []
